@@ -509,10 +509,18 @@ func (w *twkbWriter) writeTypeAndPrecision(kind twkbGeometryType) {
 
 func (w *twkbWriter) writeIsEmptyHeader() {
 	w.isEmpty = true
-	// Because this is an empty object, we only need to write the "is empty" bit.
-	// In particular, we do not write any extended info, size, bbox, or ids,
-	// even if those were available or requested.
-	w.writeMetadataHeader(twkbIsEmpty)
+	// Because this is an empty object, we do not write any size, bbox, or
+	// ids, even if those were available or requested. The extended precision
+	// header is still written, because it carries the coordinates type (Z
+	// and/or M), which empty geometries have too.
+	metaheader := twkbIsEmpty
+	if w.hasExt {
+		metaheader |= twkbHasExtPrec
+	}
+	w.writeMetadataHeader(metaheader)
+	if w.hasExt {
+		w.writeExtendedPrecision()
+	}
 }
 
 func (w *twkbWriter) writeInitialHeaders() {
